@@ -97,11 +97,18 @@ def gen_case(seed, tier, idx):
                 script.append(ra.choice([1.0, 1.0 + 1e-12, 1.0 - 1e-12, math.nextafter(1.0, 2.0), math.nextafter(1.0, 0.0)]))
             else:
                 script.extend([5.0, 0.01] * ra.choice([2, 4]))
+    rtol_ = rs.choice([1e-1, 1e-2, 1e-3, 1e-5, 1e-8])
+    atol_ = rs.choice([1e-1, 1e-2, 1e-4, 1e-6, 1e-8])
+    z = rs.random()
+    if z < 0.06:
+        rtol_ = 0.0  # an explicit zero is a valid tolerance (purely absolute / purely relative control)
+    elif z < 0.12:
+        atol_ = 0.0
     tail = 0
     if rs.random() < 0.06:
         tail = rs.choice([1, 2, 4])  # horizon a few ulp beyond the previous accepted boundary (see known finding D7)
     return {"solver": solver, "sde": spec, "dtype": dtype, "ts": [fx(t) for t in ts], "dt": fx(dt), "dt_min": fx(dt_min),
-            "rtol": fx(rs.choice([1e-1, 1e-2, 1e-3, 1e-5, 1e-8])), "atol": fx(rs.choice([1e-1, 1e-2, 1e-4, 1e-6, 1e-8])),
+            "rtol": fx(rtol_), "atol": fx(atol_),
             "conf": conf, "script": [fx(x) for x in script], "bm": "real" if rs.random() < 0.25 else "stub",
             "bm_seed": rs.randrange(1 << 30), "cache_size": rs.choice([45, 2]), "tail_ulps": tail}
 
